@@ -290,12 +290,25 @@ def check_hierarchy(db: Any, prefix: str, types: Sequence[str], parents: Sequenc
                         o["acc"][f"{acc}/{q}"] = got
                 except Exception as e:  # noqa: BLE001
                     o["acc"][f"{acc}/{q}"] = "raises " + type(e).__name__
-                    out.append((f"C15/accessor/{acc}/raises-{type(e).__name__}/{'omitted-value' if omitted else 'given-value'}",
+                    if exp == ref.NAN:
+                        cnt("accessor_refused_malformed_value")
+                        continue  # a value without numeric content: refusing it (any exception) or None are both fine
+                    how = "malformed-value" if (inst or {}).get("malformed") else "omitted-value" if omitted else "given-value"
+                    out.append((f"C15/accessor/{acc}/raises-{type(e).__name__}/{how}",
                                 f"{where}: {acc}(protocol={q}) on instance {base_tag} ({_show(inst)}): {type(e).__name__}: {e}"))
+                    continue
+                if exp == ref.NAN:
+                    if got is None:
+                        cnt("accessor_refused_malformed_value")
+                    else:
+                        out.append((f"C15/accessor/{acc}/number-from-malformed-value",
+                                    f"{where}: {acc}(protocol={q}) = {got!r} although the value has no numeric content ({_show(inst)})"))
                     continue
                 if got == exp and type(got) is type(exp):
                     if exp is not None:
                         cnt("accessor_numbers_confirmed")
+                    if inst is not None and inst.get("malformed"):
+                        cnt("accessor_documented_fallback_for_malformed_value")
                     continue
                 if exp is None:
                     mode = "number-although-parameter-undefined"
@@ -320,11 +333,13 @@ def check_hierarchy(db: Any, prefix: str, types: Sequence[str], parents: Sequenc
                     cnt("accessor_calls_skipped_value_read_already_reported")
                     continue
                 insts = [None if x is None else by_tag[x] for x in tg]
-                exp_all = ref.can_fd_expectation(*insts)
+                exp_all = ref.can_fd_expectation(insts[0], insts[1], insts[2], variant)
                 omitted = any(i is not None and i.get("value") is None for i in insts[1:])
                 if insts[1] is not None:
-                    cnt("can_fd_gate_" + ("fd" if exp_all["uses_can_fd"] else "classic" if insts[0] is not None else "no_can"))
-                for acc in ("uses_can", "uses_can_fd", "get_can_fd_baudrate"):
+                    cnt("can_fd_gate_" + ("fd" if exp_all["uses_can_fd"] else "classic" if exp_all["uses_can"] else "no_can"))
+                else:
+                    cnt("max_payload_without_parameter_" + ("can" if exp_all["uses_can"] else "not_can"))
+                for acc in exp_all:
                     exp = exp_all[acc]
                     cnt("accessor_calls")
                     try:
@@ -335,14 +350,27 @@ def check_hierarchy(db: Any, prefix: str, types: Sequence[str], parents: Sequenc
                             o["acc"][f"{acc}/{q}"] = got
                     except Exception as e:  # noqa: BLE001
                         o["acc"][f"{acc}/{q}"] = "raises " + type(e).__name__
-                        out.append((f"C15/accessor/{acc}/raises-{type(e).__name__}/{'omitted-value' if omitted else 'given-value'}",
+                        if exp == ref.NAN:
+                            cnt("accessor_refused_malformed_value")
+                            continue
+                        how = "malformed-value" if any((i or {}).get("malformed") for i in insts) else "omitted-value" if omitted else "given-value"
+                        out.append((f"C15/accessor/{acc}/raises-{type(e).__name__}/{how}",
                                     f"{where}: {acc}(protocol={q}): {type(e).__name__}: {e}; resolved {tg}"))
+                        continue
+                    if exp == ref.NAN:
+                        if got is None:
+                            cnt("accessor_refused_malformed_value")
+                        else:
+                            out.append((f"C15/accessor/{acc}/number-from-malformed-value",
+                                        f"{where}: {acc}(protocol={q}) = {got!r} although CP_CANFDBaudrate has no numeric content ({_show(insts[2])})"))
                         continue
                     if got == exp and type(got) is type(exp):
                         if exp not in (None, False):
                             cnt("accessor_numbers_confirmed")
                         continue
-                    if acc != "get_can_fd_baudrate":
+                    if acc == "get_max_can_payload_size":
+                        mode = "without-parameter-not-8-on-can" if exp == 8 else "without-parameter-number-although-not-can"
+                    elif acc != "get_can_fd_baudrate":
                         mode = "wrong-answer-for-protocol"
                     elif exp is None:
                         mode = "number-although-can-fd-not-in-use-for-protocol"
@@ -648,8 +676,42 @@ def unit(u: Tuple[Any, ...]) -> Part:
                     part.add("omitted_subvalue_sets", (variant, mask))
                     buf.append(case_of((ltype,), ((),), local, ref.BASE, False, variant))
                     _flush(part, buf)
+    elif kind == "situations":
+        # one layer; every accessor's parameter absent / default only / explicit / malformed, the response-id table absent or
+        # of every flavour (CAN + DoIP, CAN only, DoIP only), frame-size and baud-rate parameter varied independently
+        _, ltype = u
+        table, frame, baud = GATE
+        others = [x for x in ref.BASE if x not in GATE]
+        for variant in ("flat", "can-only", "doip-only"):
+            for with_table in ((True, False) if variant == "flat" else (True,)):
+                for proto in ref.PROTOS:
+                    for fs, bs, os_ in itertools.product(FRAME_SITUATIONS, SIMPLE_SITUATIONS, SIMPLE_SITUATIONS):
+                        insts: List[Dict[str, Any]] = []
+                        if with_table:
+                            insts.append(ref.make_instance(0, table, proto, 0, variant))
+                        for param, sit in [(frame, fs), (baud, bs)] + [(x, os_) for x in others]:
+                            if sit == "absent":
+                                continue
+                            inst = ref.make_instance(0, param, proto, ref.M_OMIT if sit == "default" else ref.M_GIVEN, variant)
+                            if sit not in ("default", "given"):
+                                inst["value"] = sit if param == frame else MALFORMED_NUMBER
+                                inst["malformed"] = True
+                            insts.append(inst)
+                        part.count("placement_vectors")
+                        part.count("situation_vectors")
+                        part.add("situations", (fs, bs, os_, variant, with_table))
+                        buf.append(case_of((ltype,), ((),), [insts], ref.BASE, False, variant))
+                        _flush(part, buf)
+            _flush(part, buf, force=True)  # (one subset variant per database)
     _flush(part, buf, force=True)
     return part
+
+
+# situations of a simple parameter / of CP_CANFDTxMaxDataLength (the strings are malformed values written verbatim)
+SIMPLE_SITUATIONS = ("absent", "default", "given", "malformed")
+MALFORMED_NUMBER = "12ab"
+FRAME_SITUATIONS = ("absent", "default", "given", "CANFD TX_DL = 48", "no frame size here", "CANFD TX_DL=unknown")
+SITUATION_LAYERS = (ref.PROT, ref.BV)
 
 
 def plan(quick: bool) -> Tuple[List[Tuple[Any, ...]], Dict[str, Any], int]:
@@ -698,6 +760,12 @@ def plan(quick: bool) -> Tuple[List[Tuple[Any, ...]], Dict[str, Any], int]:
             if t != ref.ESD:
                 units.append(("subsets", t, variant))
                 expect += 3 * 2 ** len(ref.VARIANTS[variant]) * 2
+    bounds["situations"] = {"layer_types": list(SITUATION_LAYERS), "table": ["absent"] + ["flat", "can-only", "doip-only"],
+                            "frame_size_parameter": list(FRAME_SITUATIONS), "baud_rate_parameter": list(SIMPLE_SITUATIONS),
+                            "other_simple_parameters": list(SIMPLE_SITUATIONS), "malformed_number": MALFORMED_NUMBER}
+    for t in SITUATION_LAYERS:
+        units.append(("situations", t))
+        expect += 4 * 3 * len(FRAME_SITUATIONS) * len(SIMPLE_SITUATIONS) ** 2
     # re-resolution after edits (one container per layer, both container orders)
     bounds["refresh_layers_given_and_omitted"] = 2
     bounds["refresh_layers_given_only"] = 3
@@ -760,8 +828,15 @@ def run(ctx: Ctx) -> None:
             "functional group + unrelated protocol) -- any of the offered instances is accepted",
             "DON'T-CARE: get_comparam(name, P) when the generic instance is defined in a strictly closer layer than the P-specific one "
             "(either is accepted); get_comparam(name, None) with several instances of that name (any of them is accepted)",
-            "DON'T-CARE: get_max_can_payload_size() when CP_CANFDTxMaxDataLength is not defined (8 / None is a convention); only "
-            "the value syntaxes 'CANFD TX_DL=<n>' and 'CAN TX_DL=<n>' are generated",
+            "get_max_can_payload_size(): the number after 'TX_DL' '=' (blanks allowed) of the effective value; the documented "
+            "conventions are demanded too: 8 if the value has no such number, 8 without the parameter on a CAN bus (a request id "
+            "resolves for the protocol), None without the parameter on another bus (judged where the three gate parameters are part "
+            "of the configuration)",
+            "a simple value without numeric content ('12ab') for an integer / time accessor: a number MUST NOT be returned; None or "
+            "any exception is accepted (the property does not say how invalid data is refused)",
+            "strict mode only: a COMPLEX-VALUE given for a simple parameter (value 'not a string') is rejected by get_value() there, so "
+            "the `not isinstance(val, str)` branches of the accessors are unreachable; `if result is None` after get_value() is dead code "
+            "(get_value() never returns None, PHYSICAL-DEFAULT-VALUE is mandatory for the loader)",
             "CAN-FD gate: a protocol uses CAN iff CP_UniqueRespIdTable resolves for it, CAN-FD iff additionally "
             "CP_CANFDTxMaxDataLength resolves for it and its effective value contains CANFD; get_can_fd_baudrate(protocol) is the "
             "number of CP_CANFDBaudrate resolved for that protocol if CAN-FD is in use, else None",
@@ -800,6 +875,11 @@ def run(ctx: Ctx) -> None:
                   c.get("views_with_inherited_entries", 0) > 0 and c.get("views_with_overridden_ancestor_instances", 0) > 0)
         ctx.guard("both MUST and DON'T-CARE lookups occurred", c.get("lookups_dontcare", 0) > 0 and c.get("lookups", 0) > c.get("lookups_dontcare", 0))
         ctx.guard("typed accessors were compared with numbers", c.get("accessor_calls", 0) > 1000)
+        ctx.guard("accessors met absent / default-only / explicit / malformed parameters; frame size asked without the parameter on "
+                  "a CAN bus and on a bus that is not CAN; malformed numbers were refused and the documented fallback was seen",
+                  len(ctx.sets.get("situations", ())) == 4 * len(FRAME_SITUATIONS) * len(SIMPLE_SITUATIONS) ** 2
+                  and c.get("max_payload_without_parameter_can", 0) > 0 and c.get("max_payload_without_parameter_not_can", 0) > 0
+                  and c.get("accessor_refused_malformed_value", 0) > 0 and c.get("accessor_documented_fallback_for_malformed_value", 0) > 0)
         ctx.guard("re-resolution: every edit kind was applied, refreshed databases were compared with fresh loads, all vectors done",
                   ctx.sets.get("refresh_edit_kinds", set()) == {"remove-instances", "replace-instances", "add-instances", "remove-parent-ref"}
                   and c.get("refresh_differential_comparisons", 0) > 1000 and c.get("refresh_vectors", 0) == bounds["refresh_vectors"])
